@@ -204,9 +204,53 @@ func closureVars(pkgs []*packages.Package) []*closureVar {
 	return out
 }
 
+// iifeCalls: calls whose function operand is a function literal (immediately invoked), other than the
+// operands of go / defer statements, per enclosing declared function.
+func iifeCalls(pkgs []*packages.Package) map[string][]iifeCall {
+	out := map[string][]iifeCall{}
+	for _, d := range moduleDecls(pkgs) {
+		var stack []ast.Node
+		ast.Inspect(d.decl.Body, func(n ast.Node) bool {
+			if n == nil {
+				stack = stack[:len(stack)-1]
+				return true
+			}
+			stack = append(stack, n)
+			call, ok := n.(*ast.CallExpr)
+			if !ok {
+				return true
+			}
+			lit, ok := ast.Unparen(call.Fun).(*ast.FuncLit)
+			if !ok {
+				return true
+			}
+			if len(stack) >= 2 {
+				switch stack[len(stack)-2].(type) {
+				case *ast.GoStmt, *ast.DeferStmt:
+					return true
+				}
+			}
+			out[d.fn.FullName()] = append(out[d.fn.FullName()], iifeCall{call: call, lit: lit, file: d.file, pkg: d.pkg, encl: d.fn.FullName()})
+			return true
+		})
+	}
+	return out
+}
+
+type iifeCall struct {
+	call *ast.CallExpr
+	lit  *ast.FuncLit
+	file *ast.File
+	pkg  *packages.Package
+	encl string
+}
+
 func closureInventory(pkgs []*packages.Package) []string {
 	seen := map[string]bool{}
 	var out []string
+	for encl, cs := range iifeCalls(pkgs) {
+		out = append(out, fmt.Sprintf("%s\t#iife\t%d", encl, len(cs)))
+	}
 	for _, cv := range closureVars(pkgs) {
 		l := cv.encl + "\t" + cv.obj.Name() + "\t" + closureSig(cv)
 		if !seen[l] {
@@ -454,4 +498,43 @@ partial:
 		}
 	}
 	return nil, "", firstErr
+}
+
+
+// newIIFEs: immediately invoked function literals in functions that have more of them than on the
+// pinned tree (typically the residue of inlining a helper that takes a function argument).
+func newIIFEs(pkgs []*packages.Package, base map[string]map[string]string, skip map[string]bool) []iifeCall {
+	var out []iifeCall
+	all := iifeCalls(pkgs)
+	var encls []string
+	for e := range all {
+		encls = append(encls, e)
+	}
+	sort.Strings(encls)
+	for _, encl := range encls {
+		cs := all[encl]
+		n := 0
+		if b, ok := base[encl]; ok {
+			fmt.Sscanf(b["#iife"], "%d", &n)
+		}
+		if len(cs) <= n || skip["iife:"+encl] {
+			continue
+		}
+		out = append(out, cs...)
+	}
+	return out
+}
+
+// iifeStep inlines one immediately invoked literal of the file (the last one first).
+func iifeStep(c iifeCall, content []byte) ([]byte, string, error) {
+	sig, _ := c.pkg.TypesInfo.TypeOf(c.lit).(*types.Signature)
+	if sig == nil {
+		return nil, "", fmt.Errorf("no signature")
+	}
+	decl := &ast.FuncDecl{Type: c.lit.Type, Body: c.lit.Body}
+	res, err := stmtInlineSig(c.pkg, c.file, c.call, content, c.pkg, decl, content, sig)
+	if err != nil {
+		return nil, "", err
+	}
+	return res, fmt.Sprintf("inlined an immediately invoked function literal in %s at %s", c.encl, c.pkg.Fset.Position(c.call.Pos())), nil
 }
